@@ -63,7 +63,7 @@ func runC18(c *an.Ctx) {
 				continue
 			}
 			// what does this arm append? look at the constants appended in the successor block
-			text := appendedConst(s)
+			text := appendedConstWith(s, rel.X, rune(rv))
 			arms = append(arms, arm{rune(rv), text})
 			if text == "\\"+string(rune(rv)) {
 				escaped[rune(rv)] = true
@@ -109,13 +109,10 @@ func runC18(c *an.Ctx) {
 			quoteFns = append(quoteFns, fn)
 		}
 	}
-	c.Floor("H1", "functions scanned for verbatim copies of the input", len(quoteFns), 2)
+	c.Floor("H1", "functions scanned for verbatim copies of the input", len(quoteFns), 1)
 	c18BulkCopies(c, quoteFns)
 
 	// ---------------- H2 ----------------
-	t := an.NewTaint(0, nil)
-	t.NoKeyFlow = true
-	t.Sanitizers = map[*ssa.Function]bool{quote: true, ssq: true}
 	var envs, shellCmd, argv *ssa.Parameter
 	for _, prm := range formatArgs.Params {
 		switch prm.Type().String() {
@@ -131,49 +128,103 @@ func runC18(c *an.Ctx) {
 		c.Undecided("H2", "params(formatArgs)", formatArgs.Pos(), "expected (map[string]string, string, []string)")
 		return
 	}
-	t.Add(shellCmd)
-	t.Add(argv)
-	// env values: extract #2 of next over range envs
-	nVals := 0
-	an.Instrs(formatArgs, func(in ssa.Instruction) {
-		if ex, ok := in.(*ssa.Extract); ok && ex.Index == 2 {
-			if nx, ok := ex.Tuple.(*ssa.Next); ok {
-				if rg, ok := nx.Iter.(*ssa.Range); ok && rg.X == ssa.Value(envs) {
-					t.Add(ex)
-					nVals++
+	// The command line may be assembled by formatArgs together with private helpers (for instance one
+	// that renders the environment assignments): the same three facts are collected over the family.
+	famFA := familyOf(p, formatArgs, 2)
+	inFam := map[*ssa.Function]bool{}
+	for _, m := range famFA {
+		inFam[m] = true
+	}
+	type srcSet struct {
+		vals map[*ssa.Parameter]bool // parameters holding raw values (command, argv, a raw value handed on)
+		envs map[*ssa.Parameter]bool // parameters holding the environment map
+	}
+	todo := map[*ssa.Function]*srcSet{formatArgs: {vals: map[*ssa.Parameter]bool{shellCmd: true, argv: true}, envs: map[*ssa.Parameter]bool{envs: true}}}
+	done := map[*ssa.Function]bool{}
+	nVals, nQuoted := 0, 0
+	for len(todo) > 0 {
+		var fn *ssa.Function
+		for f := range todo {
+			if fn == nil || an.FnName(f) < an.FnName(fn) {
+				fn = f
+			}
+		}
+		src := todo[fn]
+		delete(todo, fn)
+		if done[fn] {
+			continue
+		}
+		done[fn] = true
+		t := an.NewTaint(0, nil)
+		t.NoKeyFlow = true
+		t.Sanitizers = map[*ssa.Function]bool{quote: true, ssq: true}
+		for prm := range src.vals {
+			t.Add(prm)
+		}
+		// env values: extract #2 of next over range envs
+		an.Instrs(fn, func(in ssa.Instruction) {
+			if ex, ok := in.(*ssa.Extract); ok && ex.Index == 2 {
+				if nx, ok := ex.Tuple.(*ssa.Next); ok {
+					if rg, ok := nx.Iter.(*ssa.Range); ok {
+						if prm, isP := rg.X.(*ssa.Parameter); isP && src.envs[prm] {
+							t.Add(ex)
+							nVals++
+						}
+					}
 				}
 			}
-		}
-	})
-	c.Floor("H2", "range over the environment map in formatArgs", nVals, 1)
-	t.Run()
-	nQuoted := 0
-	an.Instrs(formatArgs, func(in ssa.Instruction) {
-		call, ok := in.(*ssa.Call)
-		if !ok {
-			return
-		}
-		if call.Call.StaticCallee() == quote {
-			if t.Has(call.Call.Args[1]) {
-				nQuoted++
+		})
+		t.Run()
+		where := "@" + an.FnName(fn)
+		an.Instrs(fn, func(in ssa.Instruction) {
+			call, ok := in.(*ssa.Call)
+			if !ok {
+				return
 			}
-			return
-		}
-		if args, isApp := an.IsBuiltinCall(call, "append"); isApp && len(args) == 2 && t.Has(args[1]) {
-			c.Fail("H2", "raw-append("+an.StablePath(args[1])+")@formatArgs", in.Pos(),
-				"a command word / environment value is appended to the command line without going through appendShellSafeQuote")
-		}
-	})
-	an.Instrs(formatArgs, func(in ssa.Instruction) {
-		if b, ok := in.(*ssa.BinOp); ok && b.Op == token.ADD && (t.Has(b.X) || t.Has(b.Y)) {
-			if bt, isB := b.Type().Underlying().(interface{ Info() int }); isB {
-				_ = bt
+			if call.Call.StaticCallee() == quote {
+				if t.Has(call.Call.Args[1]) {
+					nQuoted++
+				}
+				return
 			}
-			if b.Type().String() == "string" {
-				c.Fail("H2", "raw-concat@formatArgs", in.Pos(), "a value is concatenated into the command line without quoting")
+			if args, isApp := an.IsBuiltinCall(call, "append"); isApp && len(args) == 2 && t.Has(args[1]) {
+				c.Fail("H2", "raw-append("+an.StablePath(args[1])+")"+where, in.Pos(),
+					"a command word / environment value is appended to the command line without going through appendShellSafeQuote")
 			}
-		}
-	})
+			// raw values or the environment handed to a private helper: analysed there
+			if h := call.Call.StaticCallee(); h != nil && inFam[h] && h != fn {
+				ns := &srcSet{vals: map[*ssa.Parameter]bool{}, envs: map[*ssa.Parameter]bool{}}
+				for i, a := range call.Call.Args {
+					if i >= len(h.Params) {
+						break
+					}
+					if prm, isP := a.(*ssa.Parameter); isP && src.envs[prm] {
+						ns.envs[h.Params[i]] = true
+					} else if t.Has(a) {
+						ns.vals[h.Params[i]] = true
+					}
+				}
+				if len(ns.vals)+len(ns.envs) > 0 {
+					if old := todo[h]; old != nil {
+						for k := range ns.vals {
+							old.vals[k] = true
+						}
+						for k := range ns.envs {
+							old.envs[k] = true
+						}
+					} else {
+						todo[h] = ns
+					}
+				}
+			}
+		})
+		an.Instrs(fn, func(in ssa.Instruction) {
+			if b, ok := in.(*ssa.BinOp); ok && b.Op == token.ADD && (t.Has(b.X) || t.Has(b.Y)) && b.Type().String() == "string" {
+				c.Fail("H2", "raw-concat"+where, in.Pos(), "a value is concatenated into the command line without quoting")
+			}
+		})
+	}
+	c.Floor("H2", "range over the environment map in formatArgs or its private helpers", nVals, 1)
 	c.Check("H2", "values-quoted@formatArgs", formatArgs.Pos(), nQuoted >= 3,
 		fmt.Sprintf("the command, every argv element and every environment value must be passed to appendShellSafeQuote (%d quoting sites with a value operand)", nQuoted))
 	// jobScript parameter table
@@ -244,8 +295,32 @@ func paramNamed(fn *ssa.Function, name string) *ssa.Parameter {
 }
 
 // appendedConst concatenates the constant strings / bytes appended in block b.
-func appendedConst(b *ssa.BasicBlock) string {
+func appendedConst(b *ssa.BasicBlock) string { return appendedConstWith(b, nil, 0) }
+
+// appendedConstWith: as appendedConst; a non-constant byte that is (a conversion of) the value `self`
+// - the rune the arm was selected for - is rendered as selfRune (append(buf, '\\', byte(r)) in an arm
+// shared by several runes emits the backslash followed by the rune itself).
+func appendedConstWith(b *ssa.BasicBlock, self ssa.Value, selfRune rune) string {
 	var sb strings.Builder
+	isSelf := func(v ssa.Value) bool {
+		if self == nil {
+			return false
+		}
+		for i := 0; i < 4; i++ {
+			if v == self {
+				return true
+			}
+			switch x := v.(type) {
+			case *ssa.Convert:
+				v = x.X
+			case *ssa.ChangeType:
+				v = x.X
+			default:
+				return false
+			}
+		}
+		return false
+	}
 	for _, in := range b.Instrs {
 		call, ok := in.(*ssa.Call)
 		if !ok {
@@ -269,6 +344,8 @@ func appendedConst(b *ssa.BasicBlock) string {
 								if cv, ok := an.ConstVal(st.Val); ok && cv.Kind() == constant.Int {
 									v, _ := constant.Int64Val(cv)
 									sb.WriteRune(rune(v))
+								} else if isSelf(st.Val) {
+									sb.WriteRune(selfRune)
 								}
 							}
 						}
